@@ -19,8 +19,8 @@ EXTENDS ResourceRules, TLC, Json, IOUtils
 
 Recs == ndJsonDeserialize(IOEnv.TRACE)
 N == Len(Recs)
-VARIABLES l, ms, drift, ndrift, n
-tvars == <<l, ms, drift, ndrift, n>>
+VARIABLES l, ms, drift, ndrift, n, cov
+tvars == <<l, ms, drift, ndrift, n, cov>>
 Ev == Recs[l]
 
 ObsOf(j) == [guards |-> SeqSet(j.guards), waiters |-> j.waiters, mconn |-> j.mconn, mbw |-> j.mbw, mem |-> j.mem,
@@ -35,9 +35,9 @@ Good == {x \in Opts : x.lo <= Ev.post.mbw /\ Ev.post.mbw <= x.hi}
 (* the state after the step; an ambiguous collection (both "window rolled" and "not yet" fit) keeps the older window start *)
 Collected ==
   IF ~R.coll THEN R.s
-  ELSE IF Cardinality(Good) = 1 THEN ApplyCollect(R.s, CHOOSE x \in Good : TRUE, Ev.post.mbw, Ev.t0, Ev.t1)
-  ELSE IF Good = {} THEN ApplyCollect(R.s, CHOOSE x \in Opts : TRUE, Ev.post.mbw, Ev.t0, Ev.t1)
-  ELSE [ApplyCollect(R.s, [reset |-> TRUE], Ev.post.mbw, Ev.t0, Ev.t1) EXCEPT !.rLo = R.s.rLo]
+  ELSE IF Cardinality(Good) = 1 THEN ApplyCollect(R.s, CHOOSE x \in Good : TRUE, Ev.post.mbw, Ev.t0, Ev.t1, R.cavail)
+  ELSE IF Good = {} THEN ApplyCollect(R.s, CHOOSE x \in Opts : TRUE, Ev.post.mbw, Ev.t0, Ev.t1, R.cavail)
+  ELSE [ApplyCollect(R.s, [reset |-> TRUE], Ev.post.mbw, Ev.t0, Ev.t1, R.cavail) EXCEPT !.rLo = R.s.rLo]
 AnswerOk == IF Ev.op = "check" THEN Ev.ok \in CheckOutcomes(Pre, Ev.p, Ev.o, Ev.t0, Ev.t1) ELSE Ev.ok = R.ok
 What == IF Obs(ms) # ObsOf(Ev.pre) THEN "pre"
         ELSE IF ~AnswerOk THEN "ok"
@@ -47,16 +47,28 @@ What == IF Obs(ms) # ObsOf(Ev.pre) THEN "pre"
 
 Blank == New([max |-> 0, dht |-> 0, mcp |-> 0, message |-> 0, burst |-> 0, ivM |-> 1, ivH |-> 1, ivC |-> 1, track |-> FALSE,
               cleanup |-> FALSE, shutTo |-> 0, acqTo |-> 0, maxMem |-> 0], 0, 0)
-Init == l = 1 /\ ms = Blank /\ drift = <<>> /\ ndrift = 0 /\ n = 0
+(* coverage: check answers decided by the model / left open by the clock band, collections, late admissions, tasks that
+   outlive a shutdown *)
+Cov0 == [decided |-> 0, open |-> 0, denied |-> 0, collections |-> 0, rolls |-> 0, late |-> 0, survivors |-> 0, pending |-> 0]
+CovNext ==
+  LET two == Ev.op = "check" /\ Cardinality(CheckOutcomes(Pre, Ev.p, Ev.o, Ev.t0, Ev.t1)) = 2 IN
+  [cov EXCEPT !.decided = @ + (IF Ev.op = "check" /\ ~two THEN 1 ELSE 0), !.open = @ + (IF two THEN 1 ELSE 0),
+              !.denied = @ + (IF Ev.op = "check" /\ Ev.ok = 0 THEN 1 ELSE 0),
+              !.collections = @ + (IF R.coll THEN 1 ELSE 0),
+              !.rolls = @ + (IF R.coll /\ \E x \in Good : x.reset THEN 1 ELSE 0),
+              !.late = @ + (Collected.late - Pre.late),
+              !.survivors = @ + (IF Ev.op = "shutdown" /\ Ev.settle /\ Len(Collected.tasks) > 0 THEN 1 ELSE 0),
+              !.pending = @ + (IF Ev.ok = 2 THEN 1 ELSE 0)]
+Init == l = 1 /\ ms = Blank /\ drift = <<>> /\ ndrift = 0 /\ n = 0 /\ cov = Cov0
 Note(op, what) == /\ ndrift' = ndrift + 1
                   /\ drift' = IF Len(drift) < 20 THEN Append(drift, [line |-> l, op |-> op, what |-> what]) ELSE drift
 Next == /\ l <= N /\ l' = l + 1
-        /\ CASE Ev.ev = "Reset" -> ms' = New(Ev.cfg, Ev.t0, Ev.t1) /\ UNCHANGED <<drift, ndrift, n>>
+        /\ CASE Ev.ev = "Reset" -> ms' = New(Ev.cfg, Ev.t0, Ev.t1) /\ UNCHANGED <<drift, ndrift, n, cov>>
              [] Ev.ev = "Step" -> /\ n' = n + 1
-                                  /\ ms' = Overlay(Collected, Ev.post)
+                                  /\ ms' = Overlay(Collected, Ev.post) /\ cov' = CovNext
                                   /\ IF What = "" THEN UNCHANGED <<drift, ndrift>> ELSE Note(Ev.op, What)
-             [] Ev.ev = "Panic" -> Note("panic", "panic") /\ UNCHANGED <<ms, n>>
-             [] OTHER -> UNCHANGED <<ms, drift, ndrift, n>>
+             [] Ev.ev = "Panic" -> Note("panic", "panic") /\ UNCHANGED <<ms, n, cov>>
+             [] OTHER -> UNCHANGED <<ms, drift, ndrift, n, cov>>
 Spec == Init /\ [][Next]_tvars
-Report == (l = N + 1) => JsonSerialize(IOEnv.OUT, [consumed |-> l - 1, total |-> N, nviol |-> ndrift, checked |-> n, viol |-> drift])
+Report == (l = N + 1) => JsonSerialize(IOEnv.OUT, [consumed |-> l - 1, total |-> N, nviol |-> ndrift, checked |-> n, viol |-> drift, cov |-> cov])
 =============================================================================
